@@ -1000,6 +1000,8 @@ DIRECTED = {
          '<body><div><p region="r1">x<br style="b"/></p></div></body></tt>',
     _T + '<head><styling><style xml:id="a" style="later"/><style xml:id="later" style="missing" tts:color="red"/></styling></head><body><div><p style="a missing">x<set style="a" tts:color="blue"/></p></div></body></tt>',
     _T + '<body><div><p region="nowhere" style="nothing">x</p></div></body></tt>',
+    _T + '<body><div><p begin="' + "39" * 180 + 's" end="' + "39" * 180 + '.5s">x<set begin="' + "7" * 320 + 'h" tts:color="red"/></p></div></body></tt>',
+    _T.replace(">", ' ttp:frameRate="30">') + '<body><div><p begin="' + "8" * 320 + 'f">x</p></div></body></tt>',
     _T + '<body><set><div/></set><div><p><set><span>y</span></set>x</p></div></body></tt>',
   ],
   "srt": ["1\n00:00:01,000 --> 00:00:02,000\n<font color>x</font>\n", "1\n00:00:01,000 --> 00:00:02,000\n<![ x\n", "1\n00:00:01,000 --> 00:00:02,000\na</b></b></b>b<i>c\n",
@@ -1007,7 +1009,8 @@ DIRECTED = {
   "vtt": [_CUE + "</b></b></b></b>\n", _CUE + "</b></b></b>x\n", _CUE + "</b>x\n", _CUE + "</b></b>x\n", _CUE + "</b><b>x\n", _CUE + "</b></b><b>x\n", _CUE + "</b><00:00:01.500>x\n", _CUE + "</b></b><00:00:01.500>x\n",
           _CUE + "<rrt></r><ruby><rt>\nx\n", _CUE + "<rt>x\n", _CUE + "<ruby><ruby>x\n", _CUE + "<b><ruby>x<rt>y</rt></ruby></b>\n", _CUE + "<ruby>a<b>b</b><rt>y</rt></ruby>\n",
           _CUE + "<ruby>a\nb<rt>y</rt></ruby>\n", _CUE + "<ruby>a<00:00:01.500>b<rt>y</rt></ruby>\n", _CUE + "<ruby>a<rt>y</rt></ruby>\n",
-          "WEBVTT\n\n00:00:01.000 --> 00:00:02.000 size:" + "9" * 400 + "%\nx\n", "WEBVTT\n\n00:00:01.000 --> 00:00:02.000\n\n00:00:03.000 --> 00:00:04.000\n\n"],
+          "WEBVTT\n\n00:00:01.000 --> 00:00:02.000 size:" + "9" * 400 + "%\nx\n",
+          "WEBVTT\n\n00:00.040 --> " + "01" * 200 + ":00:00.000\nx\n", "WEBVTT\n\n" + "9" * 330 + ":00:00.000 --> " + "9" * 330 + ":00:00.001\nx\n", "WEBVTT\n\n00:00:01.000 --> 00:00:02.000\n\n00:00:03.000 --> 00:00:04.000\n\n"],
   "scc": [("Scenarist_SCC V1.0\n\n00:00:01:00\t9425 9425 94ad 94ad c1c2\n\n00:00:02:00\t942c 942c 1320 1320\n", None), ("Scenarist_SCC V1.0\n\n00:00:01:00\t9723 9723 c8e9\n", None),
           ("Scenarist_SCC V1.0\n\n00:00:01:00\t9429 9429 9723 9723 c8e9\n", None), ("Scenarist_SCC V1.0\n\n00:00:01:00\t94a1 94a1\n", None),
           ("Scenarist_SCC V1.0\n\n00:00:05:00\t9429 9429 94ec 94ec\n\n00:00:02:00\tc1c2 2080\n", None),
